@@ -41,6 +41,8 @@ pub struct HState
     pub tokens: HashMap<u32, RevokeToken>,
     pub runs: u32,
     pub used_scripts: Vec<Script>,
+    /// one-off slots whose `once` op has been applied (only then may other ops name the system)
+    pub once_applied: Vec<bool>,
 }
 
 thread_local!
@@ -212,13 +214,14 @@ fn body(
     let r = with_state(|st| { st.runs += 1; st.runs });
     let script = fetch_script(r, id);
     let view = sample(readers, !script.notake, script.take2);
-    let mut rec = json!({"t":"run","r":r,"sys":id,"local":*local,"cap":capv,"view":view});
+    let mut rec = json!({"t":"run","r":r,"sys":id,"local":*local,"cap":capv,"view":view,
+        "nt":script.notake as u8,"t2":script.take2 as u8,"el":[0, 0]});
     let mut el = el;
     if let Some(el) = el.as_mut()
     {
         // Entity world reactor: expose the local data of the reacting entity (panics inside cobweb are data).
         let got = std::panic::catch_unwind(std::panic::AssertUnwindSafe(|| { let (e, v) = el.get(); (eid(e), *v) }));
-        rec["elocal"] = match got { Ok((e, v)) => json!([e, v]), Err(_) => json!([0, 0]) };
+        rec["el"] = match got { Ok((e, v)) => json!([e, v]), Err(_) => json!([-1, -1]) };
     }
     emit(rec);
     for (i, op) in script.ops.iter().enumerate()
@@ -265,7 +268,8 @@ fn exclusive_system(id: usize) -> impl FnMut(&mut World, Local<u32>) -> Result<(
         let r = with_state(|st| { st.runs += 1; st.runs });
         let script = fetch_script(r, id);
         let view = world.syscall((!script.notake, script.take2), |In((t, tt)): In<(bool, bool)>, mut readers: Readers| sample(&mut readers, t, tt));
-        emit(json!({"t":"run","r":r,"sys":id,"local":*local,"cap":capv,"view":view}));
+        emit(json!({"t":"run","r":r,"sys":id,"local":*local,"cap":capv,"view":view,
+            "nt":script.notake as u8,"t2":script.take2 as u8,"el":[0, 0]}));
         let mut c = world.commands();
         for (i, op) in script.ops.iter().enumerate()
         {
@@ -349,6 +353,8 @@ fn issue(op: &Op, r: i64, i: usize, c: &mut Commands, acc: Option<&mut Access>, 
         Op::Ins(e, x, v) =>
         {
             let e = ent_entity(*e);
+            // `ReactCommands::insert` queues nothing when the entity does not exist at queue time
+            ret = json!(c.get_entity(e).is_some() as i32);
             if *x == 1 { c.react().insert(e, C1(*v)); } else { c.react().insert(e, C2(*v)); }
         }
         Op::Mut(e, x, v) =>
@@ -404,6 +410,8 @@ fn issue(op: &Op, r: i64, i: usize, c: &mut Commands, acc: Option<&mut Access>, 
             let token = c.react().once(bundle(b), plain_system(id));
             let entity = *SystemCommand::from(token.clone());
             with_state(|st| { st.sys[id] = Some(entity); st.tokens.insert(*k, token); });
+            let slot = id - with_state(|st| st.cfg.nsys()) - 1;
+            c.queue(move |_: &mut World| with_state(|st| st.once_applied[slot] = true));
         }
         Op::Revoke(k) =>
         {
@@ -519,6 +527,7 @@ pub fn run_program(cfg: &Config, steps: &mut dyn Iterator<Item = Step>, source: 
         tokens: HashMap::new(),
         runs: 0,
         used_scripts: Vec::new(),
+        once_applied: vec![false; cfg.nonce],
     }));
 
     {
@@ -553,6 +562,8 @@ pub fn run_program(cfg: &Config, steps: &mut dyn Iterator<Item = Step>, source: 
         });
     }
 
+    emit(json!({"t":"cfg","nsys":nsys,"nonce":cfg.nonce,"nent":cfg.nent,"nworld":cfg.nworld,"neworld":cfg.neworld,
+        "kinds":cfg.kinds}));
     let mut panicked = false;
     let world = app.world_mut();
     let mut n = 0usize;
@@ -566,7 +577,13 @@ pub fn run_program(cfg: &Config, steps: &mut dyn Iterator<Item = Step>, source: 
                 Step::Ops(ops) => { world.syscall((n as i64, ops.clone()), driver_system); }
                 Step::Gc => { garbage_collect_entities(world); }
                 Step::Poll => { schedule_removal_and_despawn_reactors(world); }
-                Step::Clear => { world.clear_trackers(); }
+                Step::Clear =>
+                {
+                    // the tail of `App::update`: the `Last` schedule (GC, then the poll), then `World::clear_trackers`
+                    garbage_collect_entities(world);
+                    schedule_removal_and_despawn_reactors(world);
+                    world.clear_trackers();
+                }
             }
         }));
         if let Err(err) = res
